@@ -299,11 +299,29 @@ def r1b_text_parsers(ctx) -> None:
             if f.qual == "sigma.conditions.ConditionSelector.resolve_referenced_detections" and selector_regex(c.args[0]):
                 r.ok("C07.R1", f.qual, "re.compile of a selector pattern: its alphabet is letters, digits, '_', '-' and '*' (C02.R4), so the expression is always valid", loc)
                 continue
-            missing = []
-            for exc in TEXT_PARSERS[call_name(c)]:
-                h = caught_locally(prog, f, c, exc)
-                if h is None or not any(isinstance(x, ast.Raise) and x.exc is not None and "Sigma" in unparse(x.exc) for x in ast.walk(h)):
-                    missing.append(exc)
+            def converted(fi, call, exc, depth=0) -> bool:
+                """the exception is turned into a Sigma error by a handler around the call, or — for a helper — around every call of the helper"""
+                h = caught_locally(prog, fi, call, exc)
+                if h is not None:
+                    return any(isinstance(x, ast.Raise) and x.exc is not None and "Sigma" in unparse(x.exc) for x in ast.walk(h))
+                if depth >= 3:
+                    return False
+                sites = []
+                for g in prog.functions_in("sigma"):
+                    for c2 in walk_no_nested(g.node):
+                        if not isinstance(c2, ast.Call):
+                            continue
+                        if fi.cls is None:
+                            if call_name(c2).split(".")[-1] == fi.name and prog.resolve_expr(g.module, c2.func) == fi.qual:
+                                sites.append((g, c2))
+                        elif call_name(c2) in (f"self.{fi.name}", f"cls.{fi.name}") and g.cls is not None and (prog.is_subclass(g.cls.qual, fi.cls.qual) or prog.is_subclass(fi.cls.qual, g.cls.qual)):
+                            sites.append((g, c2))
+                        elif call_name(c2).split(".")[-1] == fi.name and fi.qual in ctx.types.callee_fullnames(g.module, c2):
+                            sites.append((g, c2))
+                if fi.cls is not None and not fi.name.startswith("_"):
+                    return False  # a public method can be called from outside
+                return bool(sites) and all(converted(g, c2, exc, depth + 1) for g, c2 in sites)
+            missing = [exc for exc in TEXT_PARSERS[call_name(c)] if not converted(f, c, exc)]
             if missing:
                 r.violation("C07.R1", f.qual, f"{short(c, 60)}: {', '.join(missing)} not converted", f"{call_name(c)}() parses text taken from the rule document and can raise {missing} for it (e.g. a repetition count a{{99999999999999}} → OverflowError); no enclosing handler turns that into a Sigma error, so a non-Sigma exception leaves rule loading", loc)
             else:
